@@ -124,6 +124,33 @@ def x3(prog, ctx):
             else:
                 ctx.ok("X3", "%s:%d" % (PV, f.lineno), "%s does not test %s itself, but all %d call sites pass a value tested against -1" % (q, p, ncalls))
     ctx.floor("X3", "functions computing with a polyA/polyT position parameter", n, 4)
+    # the fields of PolyAInfo themselves: combined by max / min (which picks the outer tail position on one strand and the inner one on the
+    # other - and a found position over 'not found' only because -1 happens to be small), added, subtracted or ordered only behind a test
+    fields = ("external_polya_pos", "internal_polya_pos", "external_polyt_pos", "internal_polyt_pos")
+    k = 0
+    for m, q, f in prog.all_functions():
+        for node in walk_no_nested(f):
+            if not (isinstance(node, ast.Attribute) and node.attr in fields and isinstance(node.ctx, ast.Load)):
+                continue
+            par = node._parent
+            how = None
+            if isinstance(par, ast.Call) and call_name(par) in ("max", "min") and node in par.args:
+                how = "%s(...)" % call_name(par)
+            elif isinstance(par, ast.BinOp):
+                how = "arithmetic"
+            elif isinstance(par, ast.Compare) and any(isinstance(o, (ast.Lt, ast.LtE, ast.Gt, ast.GtE)) for o in par.ops):
+                how = "an ordering comparison"
+            if how is None:
+                continue
+            k += 1
+            if _sentinel_guarded(node, src(node), f):
+                ctx.ok("X3", "%s:%d" % (m.rel, node.lineno), "%s: %s used in %s behind a test against -1" % (q, src(node), how))
+            else:
+                ctx.fail("X3", node, q, src(enclosing_stmt(node))[:90], "%s enters %s without a test against the 'not found' value -1: the "
+                         "sentinel takes part in choosing / computing a coordinate, and what is chosen for a polyA position is not the "
+                         "mirror image of what is chosen for a polyT position (max picks the outer tail end on one strand, the inner on "
+                         "the other)" % (src(node), how))
+    ctx.extra["x3_field_uses"] = k
 
 
 def x5(prog, ctx):
@@ -292,7 +319,39 @@ def x6(prog, ctx, tag="X6", canonical=True):
     return n
 
 
+def x7(prog, ctx):
+    """The annotated features of the overlapping-features profile (introns of all isoforms) are sorted by START; their ENDs are not monotone
+    (a long intron can enclose a short one).  The mirror image of 'sorted by start' is 'sorted by end, descending', which this list is not:
+    a scan may stop early on a test of a feature's start, never on a test of its end - the polyT side has no such shortcut."""
+    LRP = "src/long_read_profiles.py"
+    cls = prog.cls(LRP, "OverlappingFeaturesProfileConstructor")
+    n = 0
+    for name, f in sorted(prog.methods_of(cls, inherited=False).items()):
+        for lp in [l for l in walk_no_nested(f) if isinstance(l, (ast.For, ast.While))]:
+            if "known_features" not in src(lp.iter if isinstance(lp, ast.For) else lp.test):
+                continue
+            n += 1
+            for ex in [x for x in walk_no_nested(lp) if isinstance(x, (ast.Break, ast.Return))]:
+                if [l for l in flow.enclosing_loops(ex) if l is lp] == []:
+                    continue
+                for g in flow.guards_of(ex, stop=lp):
+                    ends = [x for x in ast.walk(g.test) if isinstance(x, ast.Subscript) and isinstance(x.slice, ast.Constant) and x.slice.value == 1
+                            and "known_features" in src(x.value)]
+                    if ends:
+                        ctx.fail("X7", ex, "OverlappingFeaturesProfileConstructor." + name, "early exit on %s" % src(g.test)[:70],
+                                 "the scan over the annotated features stops at the first feature whose END satisfies %s; the list is sorted by "
+                                 "start only, so a long feature that starts earlier ends the scan before shorter features behind it are "
+                                 "visited - on the polyT side only, the polyA side (test on starts) has no counterpart of this error"
+                                 % src(g.test)[:60])
+    if not [x for x in ctx.findings if x.rule == "X7"]:
+        ctx.ok("X7", LRP, "%d scans over known_features of the overlapping-features constructor, none left early on a test of a feature's end" % n)
+    ctx.floor("X7", "loops over known_features in OverlappingFeaturesProfileConstructor", n, 3)
+
+
 def run(prog, ctx):
+    ctx.rule("X7", "no loop over known_features of OverlappingFeaturesProfileConstructor (sorted by start, ends not monotone) is left by break / "
+                   "return under a test of a feature's end coordinate")
+    x7(prog, ctx)
     ctx.rule("X3", "a parameter named *polya_pos / *polyt_pos that is used in arithmetic or an ordering comparison is protected from the "
                    "sentinel -1 by a dominating `== -1` exit / `!= -1` test in the function, or at every call site")
     x3(prog, ctx)
